@@ -336,7 +336,7 @@ class SymList(Sym):
     Version 0: field f of element i is the uninterpreted function application funcs[f](i), length ns[0].
     Every mutation (append / store at an index) adds one overlay (index, object) and one length: version v sees
     over[:v] and has length ns[v].  Field f of element i at version v is the If-chain over the overlays."""
-    __slots__ = ('name', 'ns', 'cls', 'funcs', 'pytype', 'over', 'origin', 'tag')
+    __slots__ = ('name', 'ns', 'cls', 'funcs', 'pytype', 'over', 'origin', 'tag', 'poisoned')
 
     def __init__(self, name, n, cls, funcs):
         self.name = name
@@ -347,6 +347,7 @@ class SymList(Sym):
         self.over = []
         self.origin = None
         self.tag = None
+        self.poisoned = None      # reason why this list object may no longer be looked at (see verify: havoc)
 
     @property
     def n(self):
@@ -420,6 +421,14 @@ class EnumSym(Sym):
     def __init__(self, lst, start=0):
         self.lst = lst
         self.start = start
+
+
+class ZipSym(Sym):
+    """zip(<list of symbolic length>, ...): only meaningful to generator expressions"""
+    __slots__ = ('lists',)
+
+    def __init__(self, lists):
+        self.lists = lists
 
 
 class SymRange(Sym):
